@@ -18,7 +18,14 @@ def _string(rng, n=None, maxlen=12, lossless=False):
     if n is None:
         n = rng.randrange(0, maxlen + 1)
     if lossless:
-        return [rng.choice(b"abcdefgXYZ 0189_-") for _ in range(n)]
+        out = [rng.choice(b"abcdefgXYZ 0189_-") for _ in range(n)]
+        # y-diaeresis is lossy only "where sanitised or padded" (C01's quantifier): it is generated, and the MODEL says whether the
+        # object it lands in still belongs to the quantifier (mode givenrt)
+        if n and rng.random() < 0.3:
+            out[rng.randrange(n)] = 255
+            if rng.random() < 0.3:
+                out[rng.randrange(n)] = 255
+        return out
     pool = rng.choice(POOLS) if rng.random() < 0.7 else "".join(POOLS)
     return str_codes("".join(rng.choice(pool) for _ in range(n)))
 
